@@ -59,4 +59,15 @@ def aolImport (c : AddrCodec) (g : AolGenesis) : Outcome Aol.State := do
 def didExport (s : Did.State) : List (Bytes × Did.DocWithSeq) := s
 def didImport (l : List (Bytes × Did.DocWithSeq)) : Did.State := l.foldl (fun m e => m.set e.1 e.2) []
 
+/-- `GenesisState.Validate` of x/did, as far as identifiers and sequences go: an active document describes the DID
+it is registered under (repair of F19) and no sequence is the largest `uint64`, whose successor would be the
+initial sequence that stands for "does not exist" (repair of F21).  (Well-formedness of each document is the
+message validators' `Doc.valid`.) -/
+def didGenesisValid (l : List (Bytes × Did.DocWithSeq)) : Bool :=
+  l.all fun e =>
+    decide (e.2.seq < 18446744073709551615) &&
+    (match e.2.doc with
+     | some doc => doc.empty || doc.id == e.1
+     | none => false)
+
 end Panacea.Genesis
